@@ -179,6 +179,19 @@ func nearMissStrings() []string {
 		"kill", "kill_", "killthread", "kill-thread", "kill thread", "allowed", "allow_all", "deny", "permit", "errno(1)", "errno:1", "errno=EPERM", "trace(0)", "notify", "user_notif", "kill_process_group",
 		"eq", "ne", "gt", "lt", "ge", "le", "==", "!=", ">", "<", ">=", "<=", "&", "GreaterThanOrEqual", "LessThanOrEqual", "EqualTo", "NotEqualTo", "Bits", "BitsSetAll", "MaskedEqual", "bits_set", "not_equal",
 		"\u017fkill_thread", "\u212aill_thread", "a\u0307llow", "ALLOW\u0130", "tra\u0440", "\u0430llow", "allow\x00", "\x00allow", "allow\x00kill_thread", strings.Repeat("allow", 2000)}
+	// one letter replaced by a character that folds or looks like it (U+017F long s, U+212A Kelvin sign,
+	// U+0130 / U+0131 dotted / dotless i, Cyrillic a e o)
+	subst := map[rune][]rune{'s': {0x17f}, 'S': {0x17f}, 'k': {0x212a}, 'K': {0x212a}, 'i': {0x130, 0x131}, 'I': {0x130, 0x131}, 'a': {0x430}, 'e': {0x435}, 'o': {0x43e}, 'l': {'1', 'I'}, 'O': {'0'}}
+	for _, n := range names {
+		rs := []rune(n)
+		for i, r := range rs {
+			for _, alt := range subst[r] {
+				v := append(append([]rune{}, rs[:i]...), alt)
+				v = append(v, rs[i+1:]...)
+				out = append(out, string(v), strings.ToUpper(string(v)))
+			}
+		}
+	}
 	for _, n := range names {
 		out = append(out, strings.ToUpper(n), strings.ToLower(n), strings.Title(strings.ToLower(n)), " "+n, n+" ", "\t"+n, n+"\n", n+"\r\n", n+",", n+";", "'"+n+"'", "\""+n+"\"", n+"s", "_"+n, n+"_", n[:len(n)-1], n[1:], n+n, n+"|"+n)
 	}
@@ -236,7 +249,7 @@ func init() {
 			return fs, nil
 		},
 		NeedCovers: []string{"cover.unpack.ok", "cover.unpack.rejected", "cover.unpack.case_variant", "cover.unpack_op.ok", "cover.unpack_op.rejected", "cover.roundtrip", "cover.unpack_bytes.ok", "cover.unpack_bytes.rejected", "cover.unpack_op_bytes.ok", "cover.unpack_op_bytes.rejected", "cover.unpack_concrete"},
-		Bounds:     map[string]interface{}{"strings": "all strings (equality atoms; case variants through lower()); additionally every string of up to 14 (actions) / 16 (operations) 7-bit ASCII characters as a byte vector, for code that looks at length, prefixes or single characters; plus ~350 concrete near-miss inputs (numbers in several bases, white space, punctuation, non-ASCII look-alikes, 10 000 characters) executed concretely", "values": "all 2^32 action words for printing; the seven actions and eight operations for round trips", "tags": "every exported field of the four policy structs"},
+		Bounds:     map[string]interface{}{"strings": "all strings (equality atoms; case variants through lower()); additionally every string of up to 14 (actions) / 16 (operations) 7-bit ASCII characters as a byte vector, for code that looks at length, prefixes or single characters; plus ~600 concrete near-miss inputs (numbers in several bases, white space, punctuation, non-ASCII look-alikes, 10 000 characters) executed concretely", "values": "all 2^32 action words for printing; the seven actions and eight operations for round trips", "tags": "every exported field of the four policy structs"},
 		Outside:    []string{"the behaviour of go-ucfg, yaml.v2 and encoding/json themselves (reflection-driven): quoting, defaults, and numeric fidelity of 64-bit operands through the text form - a design-time probe showed the JSON path (go-ucfg/json reads numbers as float64) rounding operands above 2^53; that is library behaviour this technique cannot encode and is not part of the claim", "the YAML/JSON syntax produced"},
 		Assumptions: []string{"yaml.v2 / encoding/json write a field under its yaml / json tag name and go-ucfg reads it under its config tag name, defaulting a missing key silently (library contract)", "documented names: the seven action names of the README / example policy and the eight operation names"},
 		Trusted:    []string{"equality-atom string encoding with uninterpreted lower(); byte-vector strings with strings.ToLower/ToUpper/EqualFold/HasPrefix/HasSuffix as per-byte ASCII case mapping", "gosym engine; models replayed natively", "z3/cvc5", "go/types reading of the struct tags"},
